@@ -111,6 +111,10 @@ class LoopSpec:
         self.dec = top.decreases.get(key)
         self.locals_t = top.loop_locals.get(key, {})
         self.key = key
+        # optional per-loop frame: `loop_modifies={ordinal: [...]}` (a subset of `modifies`) is what this
+        # loop may change; only that is havocked at the loop head, and the rest of the heap is checked
+        # unchanged over one iteration (obligations `loop<k>-frame`)
+        self.mods = ((getattr(top, 'extra', None) or {}).get('loop_modifies') or {}).get(key)
 
     def name(self, kind):
         return self.cfg.obl_name(None, kind, f'loop{self.label}' if not isinstance(self.key, tuple) else f'{self.key[0]}.loop{self.label}')
@@ -170,9 +174,34 @@ class LoopSpec:
             elif n in vars:
                 vars[n] = self.cfg.havoc_like(path, vars[n], n)
             # names not yet bound stay unbound (first assignment happens in the body)
-        self.cfg.havoc_modifies(path, self.top, path.entry_env, 'loop')
+        if self.mods is not None:
+            self.cfg.havoc_modifies(path, _ModSet(self.mods), path.entry_env, 'loop')
+            path.snapshot(self.snap_name())
+        else:
+            self.cfg.havoc_modifies(path, self.top, path.entry_env, 'loop')
         henv = {k: v for k, v in self.env(path).items() if k != 'old'}
         path.headstate = {'env': henv, 'ghost': path.ghost, 'heap': {oid: o.clone() for oid, o in path.heap.items()}, 'lazy': path.lazy, 'loop': self.label}
+
+
+class _ModSet:
+    def __init__(self, modifies):
+        self.modifies = list(modifies)
+
+
+def _loop_snap_name(self):
+    return f'loophead#{self.key}'
+
+
+def _loop_check_frame(self, path):
+    """end of one iteration of a loop with a declared per-loop frame: everything outside
+    loop_modifies has the value it had at the loop head"""
+    if self.mods is None:
+        return
+    self.cfg.check_frame(path, 'loop', snap=self.snap_name(), modifies=self.mods, label=f'loop{self.label}')
+
+
+LoopSpec.snap_name = _loop_snap_name
+LoopSpec.check_loop_frame = _loop_check_frame
 
 
 class Config:
@@ -728,19 +757,21 @@ class Config:
         return ls
 
     # -- frame ------------------------------------------------------------------------
-    def check_frame(self, path, tag):
-        top = self.top
+    def check_frame(self, path, tag, snap='old', modifies=None, label=None):
+        top = self.top if modifies is None else _ModSet(modifies)
         if ('*' in getattr(top, 'modifies', ['*'])) or self.skeleton:
             return
+        if label is not None:
+            self = _FrameNamer(self, label)
         saved_heap = path.heap
         targets = None
         # resolve modifies in the pre-state
-        path.heap = path.snapshots['old']
+        path.heap = path.snapshots[snap]
         try:
             targets = self.loc_targets(path, top, path.entry_env)
         finally:
             path.heap = saved_heap
-        old = path.snapshots['old']
+        old = path.snapshots[snap]
         for oid, o0 in old.items():
             o1 = path.heap.get(oid)
             if isinstance(o0, Frame):
@@ -760,7 +791,7 @@ class Config:
                     self.frame_obl(path, tag, f'bytearray#{oid}', o0.val, o1.val)
             elif isinstance(o0, LObj):
                 if o0.sym is not o1.sym or o0.items != o1.items:
-                    v0 = M.list_as_sym(path, Ref(oid, 'old'))
+                    v0 = M.list_as_sym(path, Ref(oid, snap))
                     v1 = M.list_as_sym(path, Ref(oid), v0.k[1] if v0 is not None else None) if v0 is not None else None
                     if v0 is None or v1 is None:
                         if (o0.items or []) != (o1.items or []):
@@ -795,6 +826,23 @@ class Config:
 
 
 _GONE = object()
+
+
+class _FrameNamer:
+    """view of a Config whose frame obligations are named after a loop (per-loop frames)"""
+
+    def __init__(self, cfg, label):
+        self._cfg = cfg
+        self._label = label
+
+    def __getattr__(self, n):
+        return getattr(self._cfg, n)
+
+    def obl_name(self, path, kind, label=''):
+        return self._cfg.obl_name(path, f'{self._label}-{kind}' if kind == 'frame' else kind, label)
+
+    def frame_obl(self, path, tag, label, v0, v1):
+        return Config.frame_obl(self, path, tag, label, v0, v1)
 
 
 # ---------------------------------------------------------------------------
